@@ -976,6 +976,11 @@ func (e *Engine) makeSliceVal(st *State, elem types.Type, ln, cp *Term, ins ssa.
 		e.prove(st, "alloc", "allocation within limit", e.tt.ULe(sz, lt), ins, "", nil)
 		st.assume(e.tt.ULe(sz, lt))
 	}
+	if !cp.IsConst() && e.sparseAlloc {
+		o := e.newObj(st, types.NewArray(elem, 0), "make(sparse)", &SparseArr{Default: e.zero(elem)})
+		e.Models["make() with a symbolic size as a sparse array (default value + stores)"] = true
+		return Slice{Obj: o, Off: e.c64(0), Len: ln, Cap: cp}, true
+	}
 	var capN int
 	if cp.IsConst() {
 		capN = int(cp.Val)
@@ -1325,8 +1330,12 @@ func (e *Engine) physLen(st *State, s Slice) int {
 	if b == nil {
 		return 0
 	}
-	if ag, ok := e.loadAt(b.V, s.Base).(*Agg); ok {
+	arr := e.loadAt(b.V, s.Base)
+	if ag, ok := arr.(*Agg); ok {
 		return len(ag.Elems)
+	}
+	if _, ok := arr.(*SparseArr); ok {
+		return 1 << 62
 	}
 	return 0
 }
